@@ -489,7 +489,13 @@ func main() {
 		r.Note("race-detector flavour not built: race part skipped")
 	}
 	var nViol atomic.Int64
+	var wedged atomic.Bool
 	runJob := func(i int, j job) {
+		if wedged.Load() {
+			// one wedged registry is the verdict; every further child would only wait out its watchdog
+			r.Count("jobs_skipped_after_wedge", 1)
+			return
+		}
 		tag := fmt.Sprintf("%s-%s-%d", j.mode, j.kind, i)
 		env := append(r.ChildEnvFor(), "C12_KIND="+string(j.kind), "C12_MODE="+j.mode, "C12_FROM="+strconv.Itoa(j.from), "C12_TO="+strconv.Itoa(j.to))
 		var res *vh.ChildResult
@@ -503,9 +509,9 @@ func main() {
 				os.Remove(f)
 			}
 			env = append(env, "C12_RACE=1", "GORACE=halt_on_error=0 log_path="+logPrefix)
-			res = r.SpawnChildBin(raceBin, "c12", tag, nil, env, nil, 15*time.Minute)
+			res = r.SpawnChildBin(raceBin, "c12", tag, nil, env, nil, time.Duration(r.Pick(3, 20))*time.Minute)
 		} else {
-			res = r.SpawnChild("c12", tag, nil, env, nil, 15*time.Minute)
+			res = r.SpawnChild("c12", tag, nil, env, nil, time.Duration(r.Pick(3, 20))*time.Minute)
 		}
 		stdout := res.Stdout()
 		nViol.Add(int64(bytes.Count(stdout, []byte(`{"t":"viol"`))))
@@ -513,7 +519,18 @@ func main() {
 		if !cr.Done {
 			stderr := res.Stderr()
 			if res.TimedOut {
-				r.Inconclusive("child " + tag + " hit the watchdog")
+				// a child that did not finish: the goroutine dump decides. Several goroutines parked on a
+				// sync (RW)Mutex underneath a registry / lifecycle manager function, none of them running, is a
+				// wedged registry ("no interleaving ... corrupts a registry", "a call to an entry that is
+				// registered throughout succeeds"); anything else is inconclusive.
+				if site, n := wedgeSite(stderr); n >= 2 {
+					wedged.Store(true)
+					nViol.Add(1)
+					r.Violation(fmt.Sprintf("C12|%s|registry-wedged|%s", j.kind, site), fmt.Sprintf("%s: the %s workload did not finish within the watchdog and %d goroutines are parked on a manager lock underneath %s: registry operations block each other for good", j.kind, j.mode, n, site),
+						map[string]interface{}{"parked_goroutines": n, "first_manager_frame": site, "dump_head": head(stderr)})
+				} else {
+					r.Inconclusive("child " + tag + " hit the watchdog")
+				}
 			} else {
 				crash := vh.CrashLine(stderr)
 				nViol.Add(1)
@@ -583,4 +600,36 @@ func head(s string) string {
 		return s[:2500]
 	}
 	return s
+}
+
+// wedgeSite scans a goroutine dump for goroutines blocked in sync.(*RWMutex) / sync.(*Mutex) acquisition whose stack
+// continues into a library manager function; it returns the first such manager frame and the number of goroutines.
+func wedgeSite(dump string) (string, int) {
+	site, n := "", 0
+	for _, g := range strings.Split(dump, "\n\ngoroutine ") {
+		lines := strings.Split(g, "\n")
+		lockAt := -1
+		for i, l := range lines {
+			if strings.HasPrefix(l, "sync.(*RWMutex).RLock") || strings.HasPrefix(l, "sync.(*RWMutex).Lock") || strings.HasPrefix(l, "sync.(*Mutex).Lock") {
+				lockAt = i
+				break
+			}
+		}
+		if lockAt < 0 {
+			continue
+		}
+		for _, l := range lines[lockAt:] {
+			if strings.HasPrefix(l, "trpc.group/trpc-go/trpc-mcp-go.(*") && strings.Contains(l, "anager)") {
+				n++
+				if site == "" {
+					if i := strings.LastIndex(l, "("); i > 0 {
+						l = l[:i]
+					}
+					site = strings.TrimPrefix(l, "trpc.group/trpc-go/trpc-mcp-go")
+				}
+				break
+			}
+		}
+	}
+	return site, n
 }
